@@ -19,7 +19,7 @@ RULE = ('case = outcome word over {delivered+acked, uplink lost, ack lost} (ALL 
         'submission schedule, observed frame-sequence hash).')
 ASSUMPTIONS = ['peer model = nRF51 ESB safelink rules (see vf/radiosim.py)', 'each transmission costs 1 ms of virtual time',
                'null packet = header 0xFF/0xF3 with empty payload; the 3-byte ff 05 01 negotiation frame is not data']
-REQUIRED = ['mon.full_stack_cases_with_a_dongle_transaction_of_more_than_a_second', 'mon.slow_link_cases_without_error_callback', 'mon.packets_refused_after_waiting_for_the_queue', 'mon.downlink_link_service_packets_with_data', 'mon.acknowledgements_without_payload', 'mon.words_exhaustive', 'mon.random_words', 'mon.uplink_packets', 'mon.downlink_packets', 'mon.downlink_header_only_packets', 'mon.uplink_header_only_packets', 'mon.link_errors_expected',
+REQUIRED = ['mon.cases_with_several_links_over_one_dongle', 'mon.full_stack_cases_with_a_dongle_transaction_of_more_than_a_second', 'mon.slow_link_cases_without_error_callback', 'mon.packets_refused_after_waiting_for_the_queue', 'mon.downlink_link_service_packets_with_data', 'mon.acknowledgements_without_payload', 'mon.words_exhaustive', 'mon.random_words', 'mon.uplink_packets', 'mon.downlink_packets', 'mon.downlink_header_only_packets', 'mon.uplink_header_only_packets', 'mon.link_errors_expected',
             'mon.negotiation_loss_cases', 'mon.no_safelink_cases', 'mon.full_stack_cases', 'mon.multi_submitter_cases',
             'mon.second_start_up_of_the_same_driver_object']
 EXHAUSTIVE = {'quick': False, 'thorough': False}
@@ -43,6 +43,8 @@ def cases(tier, seed):
         out.append({'part': 'negotiation', 'lost': j, 'seed': seed})
     for i in range(16 if tier == 'quick' else 80):
         out.append({'part': 'stack', 'seed': seed * 100003 + i})
+    for i in range(12 if tier == 'quick' else 80):
+        out.append({'part': 'shared', 'seed': seed * 100019 + i})
     for i in range(4 if tier == 'quick' else 24):
         out.append({'part': 'slow', 'seed': seed * 1013 + i})
     return out
@@ -346,7 +348,107 @@ def run(desc, ctx):
     elif part == 'stack':
         run_stack(desc, ctx, rnd)
         return
+    elif part == 'shared':
+        run_shared(desc, ctx, rnd)
+        return
     ctx.sample(first)
+
+
+def run_shared(desc, ctx, rnd):
+    """Several links over one dongle (RadioManager / _SharedRadio), opened and closed in an order in which a link is closed
+    while a link opened after it stays open and another one is opened afterwards: every link keeps its own exactly-once,
+    in-order delivery in both directions."""
+    from vf import detsched as ds, radiosim
+    import cflib.crtp.radiodriver as rd
+    import cflib.drivers.crazyradio as cr
+    from cflib.crtp.crtpstack import CRTPPacket
+    L = 600
+    word = ['ok' if rnd.random() > 0.2 else rnd.choice(('up', 'ack')) for _ in range(L)]
+    dev = radiosim.FakeUsbRadio(outcomes=word)
+    names = ['A', 'B', 'C', 'D'][:rnd.choice((3, 3, 4))]
+    chans = rnd.sample(range(126), len(names))
+    links = {}
+    for nm, ch in zip(names, chans):
+        rate = rnd.choice((0, 1, 2))
+        addr = tuple(rnd.getrandbits(8) for _ in range(5))
+        peer = radiosim.Peer()
+        dev.peers[(ch, rate, addr)] = peer
+        links[nm] = {'peer': peer, 'uri': 'radio://0/%d/%s/%s' % (ch, ('250K', '1M', '2M')[rate], ''.join('%02X' % b for b in addr)),
+                     'ups': [], 'downs': [], 'rec': [], 'err': [], 'sent_ok': 0, 'drv': None, 'uid': 1000 * (1 + names.index(nm))}
+    # the script: open A, open B, traffic, close the link opened first, open C (and D), traffic on everything open
+    order = [('open', 'A'), ('open', 'B'), ('traffic',), ('close', 'A'), ('open', 'C')] + ([('open', 'D')] if 'D' in names else []) + \
+        [('traffic',), ('close', rnd.choice(('B', 'C'))), ('traffic',)]
+    old_find = cr._find_devices
+
+    def fn(s):
+        cr._find_devices = lambda serial=None: [dev]
+        rd.RadioManager._radios = []
+        rd.RadioManager._lock = ds.Semaphore(1)
+        rd.set_retries_before_disconnect(100)
+
+        def poll(dur):
+            t_end = s.now + dur
+            while s.now < t_end:
+                for nm, lk in links.items():
+                    if lk['drv'] is not None:
+                        p = lk['drv'].receive_packet(0.01)
+                        if p is not None:
+                            lk['rec'].append((p.header, bytes(p.data)))
+        for step in order:
+            if step[0] == 'open':
+                lk = links[step[1]]
+                lk['drv'] = rd.RadioDriver()
+                lk['drv'].connect(lk['uri'], None, (lambda m, lk=lk: lk['err'].append(m[:60])))
+                poll(0.05)
+            elif step[0] == 'close':
+                lk = links[step[1]]
+                poll(1.0)               # everything queued for it has been received
+                lk['drv'].close()
+                lk['drv'] = None
+                s.sleep(0.05)
+            else:
+                for nm, lk in links.items():
+                    if lk['drv'] is None:
+                        continue
+                    for _ in range(rnd.randint(1, 8)):
+                        d = mkpk(lk['uid'] + 500 + len(lk['downs']), rnd, header_only_ok=True, link_service_ok=True)
+                        lk['downs'].append(d)
+                        lk['peer'].queue(bytes([d[0]]) + d[1])
+                    for _ in range(rnd.randint(1, 8)):
+                        u = mkpk(lk['uid'] + len(lk['ups']), rnd, header_only_ok=True)
+                        lk['ups'].append(u)
+                        if lk['drv'].send_packet(CRTPPacket(u[0], list(u[1]))):
+                            lk['sent_ok'] += 1
+                poll(1.5)
+        poll(1.0)
+        for lk in links.values():
+            if lk['drv'] is not None:
+                lk['drv'].close()
+    try:
+        _, abort, sch = harness.sched_case(fn, seed=desc['seed'], policy='random', horizon=2000.0, max_steps=8_000_000)
+    finally:
+        cr._find_devices = old_find
+    ctx.evals()
+    ctx.count('mon.cases_with_several_links_over_one_dongle')
+    info = {'links': {nm: lk['uri'] for nm, lk in links.items()}, 'script': order}
+    rp = dict(desc)
+    if abort is not None:
+        ctx.violate('radio:shared-dongle:hang:%s' % type(abort).__name__, dict(info, abort=str(abort), threads=abort.table), replay=rp)
+        return
+    for (name, exc, tb) in sch.deaths:
+        ctx.violate('radio:shared-dongle:thread-died:%s' % exc.split('(')[0], dict(info, traceback=tb), replay=rp)
+    for nm, lk in links.items():
+        peer = lk['peer']
+        acc = [((f[0] | 0x0C), f[1:]) for f in peer.accepted if not (len(f) == 1 and (f[0] & 0xF3) == 0xF3) and f != bytes((0xFF, 0x05, 0x01))]
+        if acc != lk['ups'][:lk['sent_ok']] or lk['sent_ok'] != len(lk['ups']):
+            ctx.violate('radio:shared-dongle:uplink-not-exactly-once-in-order', dict(info, link=nm, accepted=len(acc), sent=lk['sent_ok'], submitted=len(lk['ups'])), replay=rp)
+        rec = [((h | 0x0C), d) for (h, d) in lk['rec'] if not ((h & 0xF3) == 0xF3 and len(d) == 0)]
+        if rec != lk['downs']:
+            ctx.violate('radio:shared-dongle:downlink-not-exactly-once-in-order', dict(info, link=nm, received=len(rec), queued=len(lk['downs'])), replay=rp)
+        if lk['err']:
+            ctx.violate('radio:shared-dongle:unexpected-link-error', dict(info, link=nm, errors=lk['err'][:2]), replay=rp)
+    ctx.nontrivial(('shared', tuple(chans), core.h64(word)))
+    ctx.sample(dict(info, transmissions=len(dev.log)))
 
 
 def run_stack(desc, ctx, rnd):
